@@ -272,43 +272,17 @@ theorem runVoid_fresh (tr : Tr α) (k : Nat) (compute : Tr α → Except Err (Li
     runVoid tr (tmpName k) compute = (.ok c, ext tr [(tmpName k, c)]) := by
   simp only [runVoid, createAF_fresh tr k hn hf, hc, writeAF_fresh tr k c hn hf]
 
-/-- an operator that computes first (`ScalarDivider`, `ScalarRevDivider` since fix 5676890) writing to the fresh
-    temporary `#k`: the computed column is appended under `#k` -/
-theorem runAfter_fresh (tr : Tr α) (k : Nat) (compute : Tr α → Except Err (List α)) (c : List α)
-    (hn : tr.n ≠ 0) (hf : lookup (tmpName k) tr.feats = none) (hc : compute tr = .ok c) :
-    runAfter tr (tmpName k) compute = (.ok c, ext tr [(tmpName k, c)]) := by
-  simp only [runAfter, hc, createAF_fresh tr k hn hf, writeAF_fresh tr k c hn hf]
-
-/-- … and when the computation raises nothing has been created -/
-theorem runAfter_err (tr : Tr α) (out : Str) (compute : Tr α → Except Err (List α)) (err : Err)
-    (hc : compute tr = .error err) : runAfter tr out compute = (.error err, tr) := by
-  simp only [runAfter, hc]
-
-theorem loopInput_eq (tr : Tr α) (s : Str) (hn : tr.n ≠ 0) : loopInput tr s = getAF tr s := by
-  simp [loopInput, hn]
-
 /-- feature ∘ number through the operator object, writing to the fresh temporary `#k` -/
 theorem opScal_fresh (tr : Tr α) (o : Char) (s1 : Str) (k : Nat) (a c : List α) (b : α)
     (hn : tr.n ≠ 0) (hf : lookup (tmpName k) tr.feats = none) (g1 : getAF tr s1 = .ok a) (hv : vsOp o a b = .ok c) :
-    opScal tr o s1 b (tmpName k) = (.ok c, ext tr [(tmpName k, c)]) := by
-  unfold opScal
-  by_cases hd : o = '/'
-  · rw [if_pos hd]
-    exact runAfter_fresh tr k _ c hn hf (by simp only [loopInput_eq tr s1 hn, g1]; exact hv)
-  · rw [if_neg hd]
-    exact runVoid_fresh tr k _ c hn hf (by simp only [getAF_ext _ g1]; exact hv)
+    opScal tr o s1 b (tmpName k) = (.ok c, ext tr [(tmpName k, c)]) :=
+  runVoid_fresh tr k _ c hn hf (by simp only [getAF_ext _ g1]; exact hv)
 
 /-- number ∘ feature through the operator object, writing to the fresh temporary `#k` -/
 theorem opScalRev_fresh (tr : Tr α) (o : Char) (s2 : Str) (k : Nat) (a c : List α) (b : α)
     (hn : tr.n ≠ 0) (hf : lookup (tmpName k) tr.feats = none) (g2 : getAF tr s2 = .ok a) (hv : svOp o b a = .ok c) :
-    opScalRev tr o s2 b (tmpName k) = (.ok c, ext tr [(tmpName k, c)]) := by
-  unfold opScalRev
-  by_cases hd : o = '/'
-  · rw [if_pos hd]
-    exact runAfter_fresh tr k _ c hn hf (by simp only [loopInput_eq tr s2 hn, g2]; exact hv)
-  · rw [if_neg hd]
-    exact runVoid_fresh tr k _ c hn hf (by simp only [getAF_ext _ g2]; exact hv)
-
+    opScalRev tr o s2 b (tmpName k) = (.ok c, ext tr [(tmpName k, c)]) :=
+  runVoid_fresh tr k _ c hn hf (by simp only [getAF_ext _ g2]; exact hv)
 
 /-- the input column of a void function on a track that has gained features: the column itself -/
 theorem voidCompute_ext (tr : Tr α) (f s : Str) (x : List α) (ad : List (Str × List α)) (gs : getAF tr s = .ok x) :
@@ -990,25 +964,6 @@ theorem runVoid_new_fst (tr : Tr α) (out : Str) (compute : Tr α → Except Err
     obtain ⟨t, ht⟩ := hw
     simp only [ht]
 
-/-- an operator that computes first, writing to a new feature name, returns what it computes on the track as it was -/
-theorem runAfter_new_fst (tr : Tr α) (out : Str) (compute : Tr α → Except Err (List α))
-    (hn : tr.n ≠ 0) (hr : isReserved out = false) (hlk : lookup out tr.feats = none) :
-    (runAfter tr out compute).1 = compute tr := by
-  have hcr : createAF tr out (konst tr zero) = .ok (ext tr [(out, konst tr zero)]) := by
-    simp [createAF, hr, hn, hlk, ext]
-  obtain ⟨hx, hy, hz⟩ := not_xyz_of_not_reserved hr
-  simp only [runAfter]
-  cases hc : compute tr with
-  | error e => rfl
-  | ok c =>
-    have h1 : lookup out (tr.feats ++ [(out, konst tr zero)]) = some (konst tr zero) := by
-      simp [lookup_append, hlk, lookup]
-    have hw : ∃ t, writeAF (ext tr [(out, konst tr zero)]) out c = .ok t := by
-      unfold writeAF
-      simp [hn, hx, hy, hz, h1]
-    obtain ⟨t, ht⟩ := hw
-    simp only [hcr, ht]
-
 theorem opBin_denote (tr : Tr α) (o : Char) (a b out : Str) (ca cb : List α)
     (ga : getAF tr a = .ok ca) (gb : getAF tr b = .ok cb)
     (hn : tr.n ≠ 0) (hr : isReserved out = false) (hlk : lookup out tr.feats = none) :
@@ -1021,24 +976,16 @@ theorem opScal_denote (tr : Tr α) (o : Char) (a lit out : Str) (ca : List α) (
     (hn : tr.n ≠ 0) (hr : isReserved out = false) (hlk : lookup out tr.feats = none) :
     (opScal tr o a s out).1.map Val.vec = denoteM tr (.bin o (.var a) (.num lit)) := by
   simp only [denoteM, ga, hs, Except.map, ok_bind, nodeBin]
-  unfold opScal
-  by_cases hd : o = '/'
-  · rw [if_pos hd, runAfter_new_fst tr out _ hn hr hlk]
-    simp only [loopInput_eq tr a hn, ga, ok_bind]
-  · rw [if_neg hd, runVoid_new_fst tr out _ hn hr hlk]
-    simp only [getAF_ext _ ga, ok_bind]
+  rw [opScal, runVoid_new_fst tr out _ hn hr hlk]
+  simp only [getAF_ext _ ga, ok_bind]
 
 theorem opScalRev_denote (tr : Tr α) (o : Char) (a lit out : Str) (ca : List α) (s : α)
     (ga : getAF tr a = .ok ca) (hs : litOf lit = some s)
     (hn : tr.n ≠ 0) (hr : isReserved out = false) (hlk : lookup out tr.feats = none) :
     (opScalRev tr o a s out).1.map Val.vec = denoteM tr (.bin o (.num lit) (.var a)) := by
   simp only [denoteM, ga, hs, Except.map, ok_bind, nodeBin]
-  unfold opScalRev
-  by_cases hd : o = '/'
-  · rw [if_pos hd, runAfter_new_fst tr out _ hn hr hlk]
-    simp only [loopInput_eq tr a hn, ga, ok_bind]
-  · rw [if_neg hd, runVoid_new_fst tr out _ hn hr hlk]
-    simp only [getAF_ext _ ga, ok_bind]
+  rw [opScalRev, runVoid_new_fst tr out _ hn hr hlk]
+  simp only [getAF_ext _ ga, ok_bind]
 
 theorem opVoidFn_denote (tr : Tr α) (f a out : Str) (ca : List α)
     (ga : getAF tr a = .ok ca) (hf : isVoidFn f = true)
